@@ -171,6 +171,11 @@ PRODS = {
         # a named expression inside a comprehension binds in the scope of the lambda: afterwards GW is NOT the module global (7)
         ("(any((GW := v) > {0} for v in {1}) and GW > 1)", ["int", "list"]),
         ("((GW := {0}) > 1 and GW + 1 > {1})", ["int", "int"]),
+        # the loop variable of a generator expression bears the name of a parameter / of a closure variable which is read afterwards
+        ("(all(o >= -5 for o in {0}) and o.v > {1})", ["list", "int"]), ("(any(C < -5 for C in {0}) or C > {1})", ["list", "int"]),
+        # a comprehension binding a name by := , then an unrelated quantifier / comprehension
+        ("(any((GW := v) < -5 for v in {0}) or all(w > {1} for w in {0}))", ["list", "int"]),
+        ("(any((GW := v) < -5 for v in {0}) or len([w for w in {0} if w > {1}]) > 5)", ["list", "int"]),
     ],
     "list": [
         ("[{0}, {1}]", ["int", "int"]), ("{0} + {1}", ["list", "list"]), ("{0}[{1}:]", ["list", "int"]), ("{0}[:{1}]", ["list", "int"]),
@@ -496,12 +501,45 @@ def representable(value):
                 or inspect.isbuiltin(value))
 
 
+def outer_name_loads(tree):
+    """The Name nodes (ctx Load) which are read in the scope of the lambda itself, i.e. not bound by an enclosing comprehension.
+    (The first iterable of a comprehension is evaluated in the enclosing scope.)"""
+    out = []
+
+    def targets(node):
+        return {n.id for n in ast.walk(node) if isinstance(n, ast.Name) and isinstance(n.ctx, ast.Store)}
+
+    def visit(node, bound):
+        if isinstance(node, (ast.ListComp, ast.SetComp, ast.GeneratorExp, ast.DictComp)):
+            inner = set(bound)
+            for i, gen in enumerate(node.generators):
+                visit(gen.iter, bound if i == 0 else inner)
+                inner |= targets(gen.target)
+                for cond in gen.ifs:
+                    visit(cond, inner)
+            for part in ([node.key, node.value] if isinstance(node, ast.DictComp) else [node.elt]):
+                visit(part, inner)
+            return
+        if isinstance(node, ast.Name):
+            if isinstance(node.ctx, ast.Load) and node.id not in bound:
+                out.append(node)
+            return
+        for child in ast.iter_child_nodes(node):
+            visit(child, bound)
+    visit(tree, frozenset())
+    return out
+
+
+def walrus_targets(tree):
+    return {n.target.id for n in ast.walk(tree) if isinstance(n, ast.NamedExpr)}
+
+
 def free_params(text):
     """Names of PARAMS used by the expression (the lambda takes exactly these)."""
     tree = ast.parse(text, mode="eval")
-    stored = {n.id for n in ast.walk(tree) if isinstance(n, ast.Name) and isinstance(n.ctx, ast.Store)}
+    stored = walrus_targets(tree)
     used = []
-    for n in ast.walk(tree):
-        if isinstance(n, ast.Name) and isinstance(n.ctx, ast.Load) and n.id in PARAMS and n.id not in stored and n.id not in used:
+    for n in outer_name_loads(tree):
+        if n.id in PARAMS and n.id not in stored and n.id not in used:
             used.append(n.id)
     return [p for p in PARAMS if p in used]
